@@ -79,6 +79,33 @@ Proof.
 Qed.
 Print Assumptions C14_spectrum_flux_chain.
 
+(* Spectrum.sample(points, waveunit = b) (linear, fill 0; [interp_lin]/[sample_at] in Model/Units.v):
+   sampling at the points x*f expressed in unit b (f the table factor a->b) returns, for a density,
+   the samples taken at x in the spectrum's own unit DIVIDED BY f, and for a unitless spectrum the
+   same samples - for all spectra with distinct consecutive wavelengths and all points *)
+Theorem C14_sample_unit_independent :
+  forall (H C : R) (s : spectrum RF) (b : wunit) (pts : list R),
+  distinct_adj (s_wave RF s) ->
+  sample RF H C Rleb s (scale RF (wf RF (s_wu RF s) b) pts) (wname b)
+  = Ok (map (fun x => match s_vu RF s with
+                      | Some _ => (sample_at RF Rleb (s_wave RF s) (s_value RF s) x / wf RF (s_wu RF s) b)%R
+                      | None => sample_at RF Rleb (s_wave RF s) (s_value RF s) x
+                      end) pts).
+Proof. exact sample_unit_independent. Qed.
+Print Assumptions C14_sample_unit_independent.
+
+(* a density sampled in another wave unit on its own grid expressed in that unit: the values are the
+   spectrum's values / f and the trapezoid integral over the new grid is the spectrum's integral *)
+Theorem C14_sample_grid_preserves_integral :
+  forall (H C : R) (s : spectrum RF) (g : funit) (b : wunit),
+  s_vu RF s = Some g -> increasing (s_wave RF s) -> (2 <= length (s_wave RF s))%nat ->
+  length (s_value RF s) = length (s_wave RF s) ->
+  sample_grid RF H C Rleb s (wname b) = Ok (unscale RF (wf RF (s_wu RF s) b) (s_value RF s))
+  /\ trapz RF (scale RF (wf RF (s_wu RF s) b) (s_wave RF s)) (unscale RF (wf RF (s_wu RF s) b) (s_value RF s))
+     = trapz RF (s_wave RF s) (s_value RF s).
+Proof. exact sample_grid_density. Qed.
+Print Assumptions C14_sample_grid_preserves_integral.
+
 (* (d) planck_radiance / planck_exitance requested in any (wave, flux) unit, under any accepted
    spelling of the unit names, is the SI function [planck_si] (np.exp abstract: [expf]) at the
    wavelength in metres, carried to the requested units by the table conversions *)
